@@ -99,7 +99,7 @@ class GridObject(ObjectBase, ABC):
                     and isinstance(getattr(child, "values", None), np.ndarray)
                     and child.values.shape == mask.shape
                 ):
-                    values = np.ones_like(child.values) * np.nan
+                    values = np.full_like(child.values, child.nan_value)
                     values[mask] = child.values[mask]
                 else:
                     values = child.values
